@@ -28,6 +28,7 @@ func (fc *FuncCtx) cevalIn(env *CEnv, c *Clause, n ast.Node) (t Term) {
 func (fc *FuncCtx) codeEnv(st *State, at token.Pos) *CEnv {
 	env := fc.w.newEnv(fc.pkg)
 	env.old = fc.oldEnv
+	env.globalOf = func(gv *types.Var) (Term, bool) { return fc.readGlobal(st, gv), true }
 	scope := fc.pkg.Types.Scope().Innermost(at)
 	env.lookup = func(name string) (Term, bool) {
 		if g, ok := st.ghost[name]; ok {
@@ -119,7 +120,7 @@ func (w *World) verifyFunc(key string) (fc *FuncCtx) {
 	}
 	fc.bindGlobals(st, entryEnv, fc.contract)
 	for _, gi := range w.GlobalInvs {
-		if gi.Pkg == pkg {
+		if gi.Pkg == pkg || gi.Pkg == nil {
 			t := fc.cevalIn(entryEnv, gi.Clause, decl)
 			fc.assume(st, t.S)
 		}
@@ -300,3 +301,142 @@ func (w *World) verifyLemma(l *Lemma) (fc *FuncCtx) {
 }
 
 func (fc *FuncCtx) funcShortOr() string { return fc.funcShort() }
+
+// verifyGlobalInvs checks that each global invariant of the package follows from the
+// initialisers and that the variables it mentions are never assigned afterwards.
+func (w *World) verifyGlobalInvs(pkgPath string) (fc *FuncCtx) {
+	pkg := w.Pkgs[pkgPath]
+	fc = &FuncCtx{w: w, pkg: pkg, info: pkg.TypesInfo, key: pkgPath + ".globals", counter: map[string]int{}, allVars: map[*types.Var]bool{}, usedContracts: map[string]bool{},
+		contract: &Contract{Loops: map[int]*LoopContract{}, Opts: map[string]string{}, Pkg: pkg}}
+	defer func() {
+		if r := recover(); r != nil {
+			if te, ok := r.(translateErr); ok {
+				fc.translateFail = string(te)
+				return
+			}
+			if ce, ok := r.(cevalErr); ok {
+				fc.translateFail = "globalinv: " + string(ce)
+				return
+			}
+			panic(r)
+		}
+	}()
+	st := &State{guard: "true", vars: map[types.Object]Term{}, alias: map[types.Object]ast.Expr{}, ghost: map[string]Term{}, held: map[string]string{}}
+	fc.oldState = st
+	// initialisers of all package-level variables with a value
+	inits := map[*types.Var]ast.Expr{}
+	for _, f := range pkg.Syntax {
+		for _, d := range f.Decls {
+			gd, ok := d.(*ast.GenDecl)
+			if !ok || gd.Tok != token.VAR {
+				continue
+			}
+			for _, sp := range gd.Specs {
+				vs := sp.(*ast.ValueSpec)
+				if len(vs.Values) != len(vs.Names) {
+					continue
+				}
+				for i, n := range vs.Names {
+					if v, ok := pkg.TypesInfo.Defs[n].(*types.Var); ok {
+						inits[v] = vs.Values[i]
+					}
+				}
+			}
+		}
+	}
+	for _, gi := range w.GlobalInvs {
+		if gi.Pkg != pkg {
+			continue
+		}
+		// variables mentioned
+		var names []string
+		var walk func(e CExpr)
+		walk = func(e CExpr) {
+			switch x := e.(type) {
+			case *CIdent:
+				names = append(names, x.Name)
+			case *CUnary:
+				walk(x.X)
+			case *CBinary:
+				walk(x.X)
+				walk(x.Y)
+			case *CCall:
+				for _, a := range x.Args {
+					walk(a)
+				}
+			case *CSelect:
+				walk(x.X)
+			case *CIndex:
+				walk(x.X)
+				walk(x.I)
+			}
+		}
+		walk(gi.Clause.Expr)
+		for _, n := range names {
+			gv, ok := pkg.Types.Scope().Lookup(n).(*types.Var)
+			if !ok {
+				continue
+			}
+			if where := w.assignedSomewhere(gv); where != "" {
+				fc.oblige(st, "ginv.const", gv.Name(), "false", nil, "global "+gv.Name()+" named in a global invariant is assigned at "+where)
+				continue
+			}
+			init, ok := inits[gv]
+			if !ok {
+				fc.oblige(st, "ginv.const", gv.Name(), "false", nil, "global "+gv.Name()+" has no initialiser")
+				continue
+			}
+			if _, done := st.vars[gv]; !done {
+				v := fc.evalAs(st, init, gv.Type())
+				st.vars[gv] = Term{S: v.S, T: gv.Type()}
+				fc.oldState.vars[gv] = st.vars[gv]
+			}
+		}
+		env := w.newEnv(pkg)
+		fc.bindGlobals(st, env, fc.contract)
+		t := fc.cevalIn(env, gi.Clause, nil)
+		fc.oblige(st, "ginv", "", t.S, nil, "global invariant holds after initialisation: "+gi.Clause.Text)
+	}
+	return fc
+}
+
+// assignedSomewhere reports a position where a package-level variable is written (or its address taken).
+func (w *World) assignedSomewhere(gv *types.Var) string {
+	for _, p := range w.Pkgs {
+		for _, f := range p.Syntax {
+			where := ""
+			ast.Inspect(f, func(n ast.Node) bool {
+				isVar := func(e ast.Expr) bool {
+					switch x := e.(type) {
+					case *ast.Ident:
+						return p.TypesInfo.Uses[x] == gv
+					case *ast.SelectorExpr:
+						return p.TypesInfo.Uses[x.Sel] == gv
+					}
+					return false
+				}
+				switch x := n.(type) {
+				case *ast.AssignStmt:
+					for _, l := range x.Lhs {
+						if isVar(l) {
+							where = w.Fset.Position(x.Pos()).String()
+						}
+					}
+				case *ast.IncDecStmt:
+					if isVar(x.X) {
+						where = w.Fset.Position(x.Pos()).String()
+					}
+				case *ast.UnaryExpr:
+					if x.Op == token.AND && isVar(x.X) {
+						where = w.Fset.Position(x.Pos()).String()
+					}
+				}
+				return where == ""
+			})
+			if where != "" {
+				return shortPath(where)
+			}
+		}
+	}
+	return ""
+}
